@@ -48,7 +48,7 @@ def run(ctx):
                 "round trip through Lean model and real converter compared; oracle = type-directed comparison up to the null rule; "
                 "distinct = distinct (root, JSON text); non-trivial = all (each reaches at least one class function)")
     convprop.run(ctx, "C03", ops_fn=ops_fn, inst_fn=lambda: [[("Inst", INST)]],
-                 theorems=["C03_probes_declared", "C03_no_forbid"],
+                 theorems=["C03_probes_declared", "C03_no_forbid"], total=True,
                  assumptions=["an explicit JSON null for an optional property whose type is not null-admitting reads as unset and is left out (forced by C10); JSON numbers compare numerically (1 == 1.0)"])
 
 
